@@ -29,13 +29,14 @@ MIN_FUNCTIONS = 8
 
 ASSUMPTIONS = {
     "nondet": "a dropped condition may go either way", "nondet_u8": "a dropped match may take any arm",
-    "SymbolName": "opaque stand-in for ast::SymbolName", "clone": "Clone returns an equal value", "Type": "opaque", "Position": "opaque", "SyntaxId": "opaque",
+    "SymbolName": "opaque stand-in for ast::SymbolName", "clone": "Clone returns an equal value", "Type": "opaque", "Position": "opaque",
     "TcBlock": "FxHashMap<SymbolName, (Type, Position)> behind a ghost map view `tbm`", "vtb_new": "FxHashMap::default() is the empty map",
-    "vtb_get": "FxHashMap::get", "vtb_insert_last": "`blocks.last_mut().expect(..)` followed by `insert`: panics on an empty stack (an obligation), adds the entry to the last block",
+    "vtb_get": "FxHashMap::get", "DefMap": "FxHashMap<SyntaxId, Position> behind a ghost map view `dm`", "TyMap": "FxHashMap<SyntaxId, Type> (opaque)", "insert": "FxHashMap::insert",
+    "BindMap": "FxHashMap<SyntaxId, Vec<(SymbolName, Type)>> (opaque)", "all_bindings": "LocalBindings::all_bindings (for completion; reads only)", "vtb_insert_last": "`blocks.last_mut().expect(..)` followed by `insert`: panics on an empty stack (an obligation), adds the entry to the last block",
 }
 LEMMAS = {"lemma_lookup_skip": {"C19"}, "lemma_lookup_update": {"C19"}, "lemma_lookup_other": {"C19"}}
 UNVERIFIED = {"C19": [
-    "the scope slices keep only control flow, the calls that open / close a scope, the calls that bind a destination and the calls that check the expression named in the arm; that infer_var records the position LocalBindings::get returns (get / set / enter_block / exit_block themselves are under contract here: innermost binding), and that nothing else touches the scope stack, is not proved (rename.bounded[rename_corpus] covers it on a corpus)",
+    "the scope slices keep only control flow, the calls that open / close a scope, the calls that bind a destination and the calls that check the expression named in the arm; (LocalBindings get / set / enter_block / exit_block, set_binding and the local-variable path of infer_var are under contract here: a use of a local records the position of its innermost binding); that nothing else touches the scope stack or id_to_def_pos wrongly, is not proved (rename.bounded[rename_corpus] covers it on a corpus)",
 ]}
 
 GLUE_LB = """
@@ -50,7 +51,6 @@ impl Clone for Position {
     #[verifier::external_body]
     fn clone(&self) -> (r: Self) ensures r == *self { unimplemented!() }
 }
-#[verifier::external_body] pub struct SyntaxId { _o: u8 }
 /// the part of ast::Symbol these functions read
 pub struct Symbol { pub name: SymbolName, pub position: Position, pub id: SyntaxId }
 #[verifier::external_body] pub struct TcBlock { _o: u8 }
@@ -69,6 +69,36 @@ pub fn vtb_insert_last(bs: &mut Vec<TcBlock>, name: SymbolName, v: (Type, Positi
         forall|j: int| 0 <= j < old(bs)@.len() - 1 ==> final(bs)@[j] == old(bs)@[j],
         tbm(final(bs)@[old(bs)@.len() - 1]) == tbm(old(bs)@[old(bs)@.len() - 1]).insert(name, v),
 { unimplemented!() }
+"""
+
+GLUE_TV = """
+#[verifier::external_body] pub struct DefMap { _o: u8 }
+#[verifier::external_body] pub struct TyMap { _o: u8 }
+#[verifier::external_body] pub struct BindMap { _o: u8 }
+/// id_to_def_pos as a map
+pub uninterp spec fn dm(m: DefMap) -> Map<SyntaxId, Position>;
+impl DefMap {
+    #[verifier::external_body]
+    pub fn insert(&mut self, id: SyntaxId, p: Position) -> (r: Option<Position>) ensures dm(*final(self)) == dm(*old(self)).insert(id, p) { unimplemented!() }
+}
+impl TyMap {
+    #[verifier::external_body]
+    pub fn insert(&mut self, id: SyntaxId, t: Type) -> (r: Option<Type>) { unimplemented!() }
+}
+impl BindMap {
+    #[verifier::external_body]
+    pub fn insert(&mut self, id: SyntaxId, v: Vec<(SymbolName, Type)>) -> (r: Option<Vec<(SymbolName, Type)>>) { unimplemented!() }
+}
+impl Clone for Type {
+    #[verifier::external_body]
+    fn clone(&self) -> (r: Self) ensures r == *self { unimplemented!() }
+}
+impl LocalBindings {
+    #[verifier::external_body]
+    pub fn all_bindings(&self) -> (r: Vec<(SymbolName, Type)>) { unimplemented!() }
+}
+/// the fields of TypeCheckVisitor these functions touch
+pub struct TypeCheckVisitor { pub bindings: LocalBindings, pub id_to_ty: TyMap, pub id_to_def_pos: DefMap, pub id_to_bindings: BindMap }
 """
 
 GLUE = """
@@ -251,6 +281,8 @@ def build(tier):
         u.emit("    (checked, bound_before_check)", Tag("glue", fn=gname, props=props))
         u.emit("}", tag)
     # ---- LocalBindings: a name reads as its innermost binding -------------------------------------------------------
+    u.raw("#[derive(Clone, Copy, PartialEq, Eq)]")
+    u.add_type("src/parser/ast.rs", "SyntaxId")
     u.raw(GLUE_LB, kind="prelude")
     u.add_type(TC, "LocalBindings", rules=[rw.simple("T1", r"FxHashMap<SymbolName, \(Type, Position\)>", "TcBlock")])
     specs = open(os.path.join(ROOT, "units", "bindings", "specs.rs")).read()
@@ -286,6 +318,25 @@ def build(tier):
                              text="proof { let i = %s.len() - 1; lemma_lookup_update(%s, self.blocks@, i, symbol.name, (ty, symbol.position));\n"
                                   "    assert forall|o: SymbolName| o != symbol.name implies lookup(self.blocks@, o) == lookup(%s, o) by { lemma_lookup_other(%s, self.blocks@, i, symbol.name, (ty, symbol.position), o); } }" % (OLDB, OLDB, OLDB, OLDB))],
                  props=props))
+    # ---- what a definition position is: set_binding records the symbol's own position, a use records the innermost binding's
+    u.raw(GLUE_TV, kind="prelude")
+    VB, VOLD, VFIN = "self.bindings.blocks@", "old(self).bindings.blocks@", "final(self).bindings.blocks@"
+    u.add_fn(TC, "set_binding", impl="TypeCheckVisitor", wrap_impl="TypeCheckVisitor",
+             contract=Contract(
+                 requires=[("some_scope", "%s.len() >= 1" % VOLD)],
+                 ensures=[("the_definition_of_a_binding_is_its_own_symbol", "dm(final(self).id_to_def_pos) == dm(old(self).id_to_def_pos).insert(symbol.id, symbol.position)"),
+                          ("the_name_reads_as_this_binding", "lookup(%s, symbol.name) == Some((ty, symbol.position))" % VFIN),
+                          ("other_names_untouched", "forall|o: SymbolName| o != symbol.name ==> lookup(%s, o) == lookup(%s, o)" % (VFIN, VOLD))],
+                 props=props))
+    u.add_range_fn(TC, "infer_var", "self.id_to_bindings", "if let Some((value_ty, position)) = self.bindings.get(&sym.name) {",
+                   impl="TypeCheckVisitor",
+                   sig="pub fn infer_var_local(v: &mut TypeCheckVisitor, expr_id: SyntaxId, sym: &Symbol) -> (r: Option<Type>)", suffix="\n    None",
+                   rules=[rw.simple("R1s", r"\bself\.", "v."), rw.simple("R1r", r"return value_ty\.clone\(\);", "return Some(value_ty.clone());")],
+                   contract=Contract(
+                       ensures=[("a_use_of_a_local_refers_to_its_innermost_binding",
+                                 "match lookup(old(v).bindings.blocks@, sym.name) { Some(tp) => r == Some(tp.0) && dm(final(v).id_to_def_pos) == dm(old(v).id_to_def_pos).insert(sym.id, tp.1), None => r is None && dm(final(v).id_to_def_pos) == dm(old(v).id_to_def_pos) }"),
+                                ("scopes_untouched", "final(v).bindings == old(v).bindings")],
+                       props=props))
     u.add_canary_proof()
     u.raw(common.FOOTER)
     return u
